@@ -23,11 +23,12 @@ type rewRef struct {
 	PoolIn   map[string]*big.Int            // cumulative coins received by the rewards pool
 	PoolOut  map[string]*big.Int            // cumulative coins paid out of the rewards pool
 	Unowned  map[string]*big.Rat            // rewards allocated to validators on which no started asset had stake (nobody is entitled)
+	Idx      map[string]map[string]*big.Rat // position key -> reward denom -> per-token index increments since its last claim
 	Skew     map[string]string               // positions whose validator had unsettled rewards while an asset total changed elsewhere
 }
 
 func newRewRef() *rewRef {
-	return &rewRef{E: map[string]map[string]*big.Rat{}, NAlloc: map[string]int{}, Pending: map[int]map[string]*big.Rat{}, PoolIn: map[string]*big.Int{}, PoolOut: map[string]*big.Int{}, Unowned: map[string]*big.Rat{}, Skew: map[string]string{}}
+	return &rewRef{E: map[string]map[string]*big.Rat{}, NAlloc: map[string]int{}, Pending: map[int]map[string]*big.Rat{}, PoolIn: map[string]*big.Int{}, PoolOut: map[string]*big.Int{}, Unowned: map[string]*big.Rat{}, Skew: map[string]string{}, Idx: map[string]map[string]*big.Rat{}}
 }
 
 func (r *rewRef) Clone() engine.Ref {
@@ -59,6 +60,12 @@ func (r *rewRef) Clone() engine.Ref {
 	for k, v := range r.Skew {
 		n.Skew[k] = v
 	}
+	for k, m := range r.Idx {
+		n.Idx[k] = map[string]*big.Rat{}
+		for d, v := range m {
+			n.Idx[k][d] = new(big.Rat).Set(v)
+		}
+	}
 	n.Tainted = r.Tainted
 	return n
 }
@@ -86,6 +93,13 @@ func (r *rewRef) Digest() []byte {
 	for k, v := range r.Skew {
 		if v != "" {
 			parts = append(parts, "S"+k+v)
+		}
+	}
+	for k, m := range r.Idx {
+		for d, v := range m {
+			if v.Sign() != 0 {
+				parts = append(parts, fmt.Sprintf("X%s/%s=%s", k, d, v.String()))
+			}
 		}
 	}
 	sort.Strings(parts)
@@ -185,6 +199,14 @@ func (r *rewRef) onAllocation(w *world.World, x *engine.Exec) {
 					}
 					r.E[k][den].Add(r.E[k][den], share)
 					r.NAlloc[k]++
+					// per-token index increment of this allocation for this asset on this validator
+					if r.Idx[k] == nil {
+						r.Idx[k] = map[string]*big.Rat{}
+					}
+					if r.Idx[k][den] == nil {
+						r.Idx[k][den] = new(big.Rat)
+					}
+					r.Idx[k][den].Add(r.Idx[k][den], ratQuo(assetPart, tv))
 				}
 			}
 		}
